@@ -96,8 +96,18 @@ class Hist:
         for k in self.text:
             self.server.open(uri_for(self.paths[k]), self.text[k], self.lang[k])
 
+    @staticmethod
+    def on_disk(words):
+        """What the listed case-variant defect leaves of a word list: of the spellings that differ only in capitalisation
+        the one added last (the lists are kept in order of addition). The reference server gets the dictionary in that
+        state, so that the defect is on both sides of the comparison and anything else is not."""
+        out = []
+        for w in words:
+            out = [x for x in out if fold(x) != fold(w)] + [w]
+        return tuple(out)
+
     def expected(self, k):
-        return model.reference(self.refbase, self.text[k], self.lang[k], self.paths[k], tuple(self.user), tuple(self.filew[k]))
+        return model.reference(self.refbase, self.text[k], self.lang[k], self.paths[k], self.on_disk(self.user), self.on_disk(self.filew[k]))
 
     def set_text(self, k, text):
         with open(self.paths[k], "w", encoding="utf-8") as f:
@@ -151,6 +161,17 @@ class Hist:
                 else:
                     self.finding("other-lints-changed", "diagnostics of %s differ from the reference after %s: extra %r missing %r" % (k, why, extra[:3], missing[:3]))
 
+    def maybe_variant(self, w, lst):
+        """Now and then the word added is another capitalisation of one this dictionary already holds (the user fixes
+        `blorfin` although `Blorfin` is listed)."""
+        small = [x for x in lst if len(x) < 20 and x.isascii()]
+        if small and self.rng.random() < 0.3:
+            b = self.rng.choice(small)
+            v = b.lower() if b != b.lower() else self.rng.choice([b.capitalize(), b.upper()])
+            if v != b:
+                return v
+        return w
+
     def replaced_by_later_variant(self, w, k):
         """The listed defect: within one dictionary a LATER addition that differs only in capitalisation replaces the
         earlier spelling. It explains a flagged word only if such a later addition exists in the same dictionary."""
@@ -196,6 +217,7 @@ class Hist:
             if r < 0.4:
                 w = rng.choice(WORDS)
                 k = rng.choice(list(self.text))
+                w = self.maybe_variant(w, self.user)
                 self.trace.append({"op": "HarperAddToUserDict", "word": w, "doc": k})
                 uri = uri_for(self.paths[k])
                 n = self.server.n_publishes(uri)
@@ -208,6 +230,7 @@ class Hist:
             elif r < 0.6:
                 w = rng.choice(WORDS)
                 k = rng.choice(list(self.text))
+                w = self.maybe_variant(w, self.filew[k])
                 self.trace.append({"op": "HarperAddToFileDict", "word": w, "doc": k})
                 uri = uri_for(self.paths[k])
                 n = self.server.n_publishes(uri)
@@ -227,7 +250,8 @@ class Hist:
                 if self.big and len(self.user) > 10:
                     t += " " + " ".join(rng.sample(self.user[2:], 6)) + "."
                 # words added earlier show up again in later texts (they must stay accepted)
-                added = [w for w in self.user + self.filew.get(k, []) if w in WORDS]
+                folded = {fold(x) for x in WORDS} | {"preseeded", "alreadyhere", "zwolfish", "kappaesque", "quebecish", "fileseeded", "onlyhereish"}
+                added = [w for w in self.user + self.filew.get(k, []) if fold(w) in folded]
                 if added and rng.random() < 0.8:
                     t += " We saw a %s and a %s here." % (rng.choice(added), rng.choice(added))
                 self.trace.append({"op": "lint", "doc": k, "text": t})
